@@ -188,7 +188,7 @@ def summarise(run, res):
 def check(run):
     rng = random.Random(run.seed)
     sysgen.POOLS["space"] = ["cm", "mm", "dmm", "cmm", "µm", "nm", "dm"]
-    n = 140 if run.tier == "quick" else 1200
+    n = 100 if run.tier == "quick" else 1200
     cases = [make_case(rng, run.tier) for _ in range(n)]
     # a share of runs in which chemostated entries matter as sources ("exempt from the change but not from the propensity"):
     # a well stocked flagged cell or species next to nearly empty free ones, diffusion setting the pace
@@ -211,7 +211,7 @@ def check(run):
                 "non-trivial = >= 2 steps")
     # long Gillespie runs at low copy numbers (cells empty and refill: histories matter), screened by the legality oracle;
     # the Coq replay judges a fixed-size prefix above and every run the screen objects to
-    nb = 500 if run.tier == "quick" else 6000
+    nb = 350 if run.tier == "quick" else 6000
     bulk = []
     for _ in range(nb):
         c = make_case(rng, run.tier)
